@@ -289,6 +289,9 @@ partial def lexGo (cs : List Char) (acc : List Tok) (qm : Bool := false) : Optio
         -- the rule reports a literal that does not fit the token buffer (`$String_literal_is_too_long`; the length counts the quotes)
         if body.isEmpty || body.length + 2 ≥ stringTooLongFrom then none else lexGo r2 (.atom (.str (String.ofList body)) :: acc) qm
       | _ => none
+    else if c == ';' && qm then
+      -- (the literal table of the translator misses the rule `";" { return ';'; }`: its `return` value contains the `;` it splits at)
+      match queryOnlyTok "';'" with | some t => lexGo r (t :: acc) qm | none => none
     else if c == '/' && r.head? == some '/' then
       let (_, r1) := takeWhileL (fun x => x != '\n') r
       lexGo r1 acc qm
